@@ -241,5 +241,12 @@ Section Conversions.
   (* ConvertQuadkeysAndVerticalIDsToExtendedSpatialIDs (the result is de-duplicated through a map: a set) *)
   Definition qv_to_ext (l : list qvid) (outH outV : Z) : option (result (list string)) :=
     if negb (ext_check_zoom outH outV) then Some Err else from_qv_loop l outH outV.
+  (* ConvertQuadkeysAndVerticalIDsToSpatialIDs: the extended conversion at (outputZoom, outputZoom), then each ID "z/x/y/z/f" rewritten
+     as "z/f/x/y" (fields 0, 4, 1, 2 of the split) *)
+  Definition qv_to_sid (l : list qvid) (z : Z) : option (result (list string)) :=
+    match qv_to_ext l z z with
+    | Some (Ok a) => match map_opt eid_to_sid_str a with Some r => Some (Ok r) | None => None end
+    | o => o
+    end.
 
 End Conversions.
